@@ -30,6 +30,7 @@ import (
 	"os"
 	"os/exec"
 	"path/filepath"
+	"regexp"
 	"sort"
 	"strconv"
 	"strings"
@@ -321,10 +322,21 @@ func runC11(e *env) {
 	var units []*c11JSUnit
 	partStrings := map[string]bool{}
 	t0 := time.Now()
-	for bi := 0; bi < nBundles; bi++ {
-		c11Msgs = nil
-		files, entry, dataSets, feats := genBundle(e.rng, opts)
-		msgs := c11Msgs
+	corpus := c11Corpus()
+	for bi := 0; bi < len(corpus)+nBundles; bi++ {
+		var files []srcFile
+		var entry string
+		var dataSets []data.Map
+		var feats map[string]int
+		var msgs []*c11Msg
+		if bi < len(corpus) {
+			// hand-written bundles first: one per defect the check has found, and the PO corner cases
+			files, entry, dataSets, msgs, feats = corpus[bi].files, "ns.c.t", corpus[bi].data, corpus[bi].msgs, map[string]int{"msg-corpus": 1}
+		} else {
+			c11Msgs = nil
+			files, entry, dataSets, feats = genBundle(e.rng, opts)
+			msgs = c11Msgs
+		}
 		if len(msgs) == 0 {
 			e.res.Histogram["bundle-without-message"]++
 			continue
@@ -351,7 +363,7 @@ func runC11(e *env) {
 			}
 		}
 		nameOf := make([]map[string]string, len(msgs))
-		var hasEmpty, hasBad, hasNested, hasLook, hasParens, hasEmptyCase, incoherent, nontrivial bool
+		var hasEmpty, hasBad, hasNested, hasLook, hasParens, hasEmptyCase, hasBadName, incoherent, nontrivial bool
 		bad := ""
 		for _, m := range msgs {
 			n := nodes[m.Idx]
@@ -377,6 +389,11 @@ func runC11(e *env) {
 			hasNested = hasNested || m.has("nested")
 			hasParens = hasParens || m.has("parens")
 			hasLook = hasLook || m.lookalike()
+			for _, nm := range no {
+				if !c11NameRe.MatchString(nm) {
+					hasBadName = true // a name that soymsg.Parts does not read back ({$été}, {$_})
+				}
+			}
 			if m.Plural && !m.has("badplural") && (pomsg.Msgid(n) == "" || pomsg.MsgidPlural(n) == "") {
 				hasEmptyCase = true // a PO file cannot carry an empty msgid / msgid_plural
 				e.res.Histogram["feat:plural-empty-case"]++
@@ -450,7 +467,7 @@ func runC11(e *env) {
 				}
 				e.res.Histogram["extract-crash"]++
 				c11Fail(e, hx.Violation{Kind: "oracle", What: "xgettext-soy crashes on a bundle the compiler accepts", Case: rp, Observed: c11Head(stderr.String(), 400)}, key)
-			case hasBad || hasLook || hasNested || hasEmptyCase:
+			case hasBad || hasLook || hasNested || hasEmptyCase || hasBadName:
 				// not representable in a PO file: the extractor may (hasBad: must) refuse
 				e.res.Histogram["extract-refused-unrepresentable"]++
 			default:
@@ -513,7 +530,7 @@ func runC11(e *env) {
 		}
 		if !c11SameCounts(want, got) {
 			c11Fail(e, hx.Violation{Kind: "oracle", What: "the extracted POT does not list the bundle's messages (id, var, msgctxt, msgid, msgid_plural)", Case: rp,
-				Expected: c11Keys(want), Observed: c11Keys(got)}, "")
+				Expected: c11Keys(want), Observed: c11Keys(got)}, map[bool]string{true: "empty-plural-case"}[hasEmptyCase])
 		}
 		// ---- no catalogue ----
 		B := &c11Bundle{files: orig, entry: entry, data: dataSets, msgs: msgs}
@@ -649,6 +666,8 @@ func runC11(e *env) {
 					c.keys = "empty-plural-case"
 				case kind == "identity" && hasLook:
 					c.keys = "brace-token-text"
+				case hasBadName:
+					c.keys = "unreadable-name"
 				case hasNested:
 					c.keys = "nested-plural"
 				case hasParens && incoherent:
@@ -983,6 +1002,8 @@ func c11Fail(e *env, v hx.Violation, key string) {
 	}
 	e.res.Fail(v, key)
 }
+
+var c11NameRe = regexp.MustCompile(`^[A-Z0-9_]+$`)
 
 func c11U(id uint64) string { return "#" + strconv.FormatUint(id, 10) }
 
